@@ -39,12 +39,13 @@ BUILDS = {
 #   L  list of naturals (shape-like)          I  list of ints (axes; may be negative)
 #   n  natural scalar                         i  int scalar (may be negative)
 #   b  bool                                   (a value None is always spelled nmtools::None, kind `none`)
-#   A  array operand (value = its shape; logical content = row-major flat id)
-LIST_KINDS_STL = ['ct', 'cl', 'a', 'raw', 'sv', 'v', 'tup', 'f', 'h', 'utla', 'utlv', 'ba', 'bsv']
-LIST_KINDS_NOSTL = ['ct', 'cl', 'a', 'raw', 'sv', 'v', 'tup', 'f', 'h']
+#   A  array operand (value = its shape; logical content = 1000*position + row-major flat id)
+#   C  condition array operand (value = its shape; logical content = row-major flat id % 2)
+LIST_KINDS_STL = ['ct', 'cl', 'clt', 'a', 'raw', 'sv', 'v', 'tup', 'f', 'h', 'utla', 'utlv', 'ba', 'bsv']
+LIST_KINDS_NOSTL = ['ct', 'cl', 'clt', 'a', 'raw', 'sv', 'v', 'tup', 'f', 'h']
 SCALAR_KINDS = ['ct', 'cl', 'rt', 'rtz']          # rt = int, rtz = size_t (only for naturals)
 BOOL_KINDS = ['ct', 'rt']
-CX_LIST_KINDS = ['ct', 'cl', 'a', 'raw', 'tup']   # kinds usable in `constexpr auto r = f(args)`
+CX_LIST_KINDS = ['ct', 'cl', 'clt', 'a', 'raw', 'tup']   # kinds usable in `constexpr auto r = f(args)`
 ARRAY_KINDS_STL = ['a', 'raw', 'f', 'h', 'd',
                    'cs_fb', 'cs_hb', 'cs_db', 'fs_fb', 'fs_hb', 'fs_db', 'hs_fb', 'hs_hb', 'hs_db',
                    'ds_fb', 'ds_hb', 'ds_db', 'ls_fb', 'ls_hb', 'ls_db']
@@ -52,7 +53,8 @@ ARRAY_KINDS_COL = [k + '_col' for k in ARRAY_KINDS_STL if '_' in k]
 
 KIND_DOC = {
     'ct': 'compile-time constant: nmtools_tuple{2_ct,3_ct} / 3_ct / nmtools::True',
-    'cl': 'clipped: nmtools_tuple{clipped_size_t<Max>{v}...} / clipped_integer_t<int,Min,Max>{v}',
+    'cl': 'clipped: nmtools_tuple{clipped_size_t<Max>{v}...} / clipped_integer_t<int,Min,Max>{v}, bounds with slack',
+    'clt': 'clipped with TIGHT bounds (Max = v, Min = min(v,0)): the same type family as cl, pinned under the signature of cl',
     'a': 'nmtools_array<T,N> (std::array, or utl::array under NMTOOLS_DISABLE_STL)',
     'raw': 'raw C array T[N]',
     'sv': 'nmtools_static_vector<T,8> (utl::static_vector)',
@@ -68,25 +70,25 @@ KIND_DOC = {
 }
 
 
-VIEW_LIST_KINDS = ['ct', 'cl', 'a', 'raw', 'sv', 'v', 'tup']     # argument kinds of view-level ops (besides the arrays)
+VIEW_LIST_KINDS = ['ct', 'cl', 'clt', 'a', 'raw', 'sv', 'v', 'tup']     # argument kinds of view-level ops (besides the arrays)
 SECOND_ARRAY_KINDS = ['a', 'raw', 'd', 'cs_fb', 'fs_hb', 'ds_db', 'ls_hb', 'hs_db_col']
 
 
 def kinds_for(vtype, build, value=None, level='index', second=False):
     stl = BUILDS[build]['stl']
-    if value is None and vtype != 'A':
+    if value is None and vtype not in ('A', 'C'):
         return ['none']
-    if vtype == 'A':
+    if vtype in ('A', 'C'):
         return list(SECOND_ARRAY_KINDS) if second else list(ARRAY_KINDS_STL) + list(ARRAY_KINDS_COL)
     if level == 'view' and vtype in ('L', 'I'):
         ks = list(VIEW_LIST_KINDS)
         if len(value) == 0:
-            ks = [k for k in ks if k != 'raw']
+            ks = [k for k in ks if k not in ('raw', 'clt')]
         return ks
     if vtype in ('L', 'I'):
         ks = list(LIST_KINDS_STL if stl else LIST_KINDS_NOSTL)
         if len(value) == 0:
-            ks = [k for k in ks if k not in ('raw', 'f', 'h', 'ba')]   # no zero-length raw arrays
+            ks = [k for k in ks if k not in ('raw', 'f', 'h', 'ba', 'clt')]   # no zero-length raw arrays; cl = clt
         if len(value) > 8:
             ks = [k for k in ks if k not in ('sv', 'bsv', 'h')]
         return ks
@@ -110,9 +112,13 @@ def ct_lit(v):
     return 'nm::meta::ct_v<%d>' % v
 
 
-def cl_bounds(v, salt, signed):
+def cl_bounds(v, salt, signed, tight=False):
     """(min, max) of the clipped type used for value v; min < max is a static_assert of the type."""
     v = int(v)
+    if tight:
+        if signed:
+            return (v, max(v + 1, 0)) if v < 0 else (0, max(v, 1))
+        return 0, max(v, 1)
     hi = v + (salt % 3)
     if signed:
         lo = min(v, 0) - ((salt // 3) % 2)
@@ -122,8 +128,8 @@ def cl_bounds(v, salt, signed):
     return 0, max(hi, 1)
 
 
-def cl_lit(v, salt, signed):
-    lo, hi = cl_bounds(v, salt, signed)
+def cl_lit(v, salt, signed, tight=False):
+    lo, hi = cl_bounds(v, salt, signed, tight)
     if signed:
         return 'nm::clipped_integer_t<int,%d,%d>{%d}' % (lo, hi, v)
     return 'nm::clipped_size_t<%d>{%d}' % (hi, v)
@@ -144,9 +150,23 @@ def nested_init(shape, start):
     return rec(list(shape), flat)
 
 
-def decl_array(name, shape, kind, pos):
+def nested_init_mod2(shape):
+    n = 1
+    for e in shape:
+        n *= e
+    flat = [k % 2 for k in range(n)]
+
+    def rec(sh, vals):
+        if len(sh) == 1:
+            return '{' + ','.join(str(v) for v in vals) + '}'
+        step = len(vals) // sh[0]
+        return '{' + ','.join(rec(sh[1:], vals[k * step:(k + 1) * step]) for k in range(sh[0])) + '}'
+    return rec(list(shape), flat)
+
+
+def decl_array(name, shape, kind, pos, cond=False):
     dims = ''.join('[%d]' % e for e in shape)
-    init = nested_init(shape, 1000 * pos)
+    init = nested_init_mod2(shape) if cond else nested_init(shape, 1000 * pos)
     if kind == 'raw':
         return ['int %s%s = %s;' % (name, dims, init)]
     col = kind.endswith('_col')
@@ -163,9 +183,9 @@ def decl_array(name, shape, kind, pos):
 def decl_arg(name, vtype, value, kind, salt=0, cx=False, pos=0):
     """C++ declaration lines for one argument; the argument is then usable as `name`."""
     q = 'constexpr ' if cx else ''
-    if vtype == 'A':
-        return decl_array(name, value, kind, pos)
-    if value is None and vtype != 'A':
+    if vtype in ('A', 'C'):
+        return decl_array(name, value, kind, pos, cond=(vtype == 'C'))
+    if value is None:
         return ['%sauto %s = nm::None;' % (q, name)]
     if vtype in ('L', 'I'):
         signed = vtype == 'I'
@@ -176,10 +196,10 @@ def decl_arg(name, vtype, value, kind, salt=0, cx=False, pos=0):
             if n == 0:
                 return ['%sauto %s = nmtools_tuple<>{};' % (q, name)]
             return ['%sauto %s = nmtools_tuple{%s};' % (q, name, ','.join(ct_lit(v) for v in value))]
-        if kind == 'cl':
+        if kind in ('cl', 'clt'):
             if n == 0:
                 return ['%sauto %s = nmtools_tuple<>{};' % (q, name)]
-            return ['%sauto %s = nmtools_tuple{%s};' % (q, name, ','.join(cl_lit(v, salt + j, signed) for j, v in enumerate(value)))]
+            return ['%sauto %s = nmtools_tuple{%s};' % (q, name, ','.join(cl_lit(v, salt + j, signed, kind == 'clt') for j, v in enumerate(value)))]
         if kind == 'a':
             return ['%sauto %s = nmtools_array<%s,%d>{%s};' % (q, name, et, n, vals)]
         if kind == 'utla':
@@ -230,8 +250,10 @@ def decl_arg(name, vtype, value, kind, salt=0, cx=False, pos=0):
 # operations
 # ------------------------------------------------------------------------------------------------
 class Op:
-    def __init__(self, name, includes, args, call, rep, post='k9::norm(r)', level='index', rep_bad=()):
+    def __init__(self, name, includes, args, call, rep, post='k9::norm(r)', level='index', rep_bad=(), kinds=None, sparse=False):
         self.name = name; self.includes = includes; self.args = args      # args: [(name, vtype)]
+        self.sparse = sparse                                              # kind universe = diagonals + class pairs (see all_assignments)
+        self.kinds = dict(kinds or {})                                    # argument name -> kinds (overrides kinds_for)
         self.call = call; self.post = post; self.level = level
         self.rep = rep                                                    # representative requests used for pinning
         self.rep_bad = list(rep_bad)                                      # representative REFUSED requests (pinned apart)
@@ -285,6 +307,8 @@ _op('shape_slice', [IX + 'slice.hpp'], [('shape', 'L'), ('s0', 'S'), ('s1', 'S')
 
 VW = 'nmtools/array/view/'
 AR = 'nmtools/array/array/'
+_op('shape_matmul', [VW + 'matmul.hpp'], [('ashape', 'L'), ('bshape', 'L')], 'ix::shape_matmul(ashape,bshape)',
+    [[[2, 3], [3, 4]], [[2, 1, 3, 4], [5, 4, 2]]], rep_bad=[[[2, 3], [2, 2]]])
 _op('v_transpose', [VW + 'transpose.hpp'], [('x', 'A'), ('axes', 'I')], 'view::transpose(x,axes)',
     [[[2, 3], [1, 0]], [[2, 3], None]], post='k9::norm_arr(r)', level='view')
 _op('v_reshape', [VW + 'reshape.hpp'], [('x', 'A'), ('newshape', 'I')], 'view::reshape(x,newshape)',
@@ -302,13 +326,65 @@ _op('e_add', [AR + 'ufuncs/add.hpp'], [('x', 'A'), ('y', 'A')], 'na::add(x,y)',
 _op('e_tile', [VW + 'tile.hpp', 'nmtools/array/eval.hpp'], [('x', 'A'), ('reps', 'L')], 'na::eval(view::tile(x,reps))',
     [[[2, 3], [2, 1]]], post='k9::norm_arr(r)', level='view')
 
+# ---- round 4: more views / evaluations.  rep = requests accepted under EVERY kind; rep_bad = refused requests (only for
+# operations that CAN refuse: the others assert / run out of bounds on invalid arguments, which is C15 material)
+NA = dict(post='k9::norm_arr(r)', level='view', sparse=True)
+OPS['v_reshape'].rep_bad = [[[2, 3], [4, 2]]]
+OPS['v_add'].rep_bad = [[[2, 3], [2]]]
+OPS['e_add'].rep_bad = [[[2, 3], [2]]]
+# refusing since the fix: commits 812bb12 (repeat), 972adee (concatenate), 7d7a8ac (matmul), fb06f17 (expand_dims) of /repo
+OPS['shape_repeat'].rep_bad = [[[2, 3], 2, 2]]
+OPS['shape_repeat_l'].rep_bad = [[[2, 3], [1, 2], 1]]
+_op('e_reshape', [AR + 'reshape.hpp'], [('x', 'A'), ('newshape', 'I')], 'na::reshape(x,newshape)',
+    [[[2, 3], [3, 2]]], rep_bad=[[[2, 3], [4, 2]]], **NA)
+_op('v_broadcast_to', [VW + 'broadcast_to.hpp'], [('x', 'A'), ('shape', 'L')], 'view::broadcast_to(x,shape)',
+    [[[3, 1], [2, 3, 2]]], rep_bad=[[[3, 2], [2, 3]]], **NA)
+_op('v_broadcast_arrays', [VW + 'broadcast_arrays.hpp'], [('x', 'A'), ('y', 'A')], 'view::broadcast_arrays(x,y)',
+    [[[2, 1], [3]]], rep_bad=[[[2, 3], [2]]], post='k9::norm_arrs(r)', level='view', sparse=True)
+_op('v_repeat', [VW + 'repeat.hpp'], [('x', 'A'), ('repeats', 'n'), ('axis', 'i')], 'view::repeat(x,repeats,axis)',
+    [[[2, 3], 2, 1], [[2, 3], 2, None]], **NA)
+_op('v_pad', [VW + 'pad.hpp'], [('x', 'A'), ('pad_width', 'L')], 'view::pad(x,pad_width,9999)',
+    [[[2, 3], [0, 2, 1, 0]]], rep_bad=[[[2, 3], [0, 2, 1]]], **NA)
+_op('v_slice', [VW + 'slice.hpp'], [('x', 'A'), ('s0', 'S'), ('s1', 'S')], 'view::slice(x,s0,s1)',
+    [[[3, 4], [1, 3], [None, None, 3]]], **NA)
+_op('v_flip', [VW + 'flip.hpp'], [('x', 'A'), ('axis', 'I')], 'view::flip(x,axis)',
+    [[[2, 3], [1]], [[2, 3], None]], **NA)
+_op('v_flip_s', [VW + 'flip.hpp'], [('x', 'A'), ('axis', 'i')], 'view::flip(x,axis)',
+    [[[2, 3], 1]], **NA)
+_op('v_expand_dims', [VW + 'expand_dims.hpp'], [('x', 'A'), ('axis', 'I')], 'view::expand_dims(x,axis)',
+    [[[2, 3], [0, 2]]], **NA)
+_op('v_squeeze', [VW + 'squeeze.hpp'], [('x', 'A')], 'view::squeeze(x)',
+    [[[2, 1, 3]]], **NA)
+_op('v_concatenate', [VW + 'concatenate.hpp'], [('x', 'A'), ('y', 'A'), ('axis', 'i')], 'view::concatenate(x,y,axis)',
+    [[[2, 3], [1, 3], 0], [[2, 3], [2], None]], kinds={'y': ['a', 'd', 'fs_hb', 'ls_hb']}, **NA)
+_op('v_where', [VW + 'where.hpp'], [('c', 'C'), ('x', 'A'), ('y', 'A')], 'view::where(c,x,y)',
+    [[[2, 3], [3], [2, 1]]], rep_bad=[[[2, 3], [2], [2, 3]]],
+    kinds={'x': ['a', 'd', 'cs_fb', 'ls_hb'], 'y': ['raw', 'd', 'fs_hb', 'hs_db_col']}, **NA)
+_op('v_matmul', [VW + 'matmul.hpp'], [('x', 'A'), ('y', 'A')], 'view::matmul(x,y)',
+    [[[2, 3], [3, 2]]], **NA)
+_op('v_sum_k', [VW + 'sum.hpp'], [('x', 'A'), ('axis', 'I'), ('keepdims', 'b')], 'view::sum(x,axis,nm::None,nm::None,keepdims)',
+    [[[2, 3, 2], [0, 2], True], [[2, 3], None, False]], **NA)
+_op('v_sum_ks', [VW + 'sum.hpp'], [('x', 'A'), ('axis', 'i'), ('keepdims', 'b')], 'view::sum(x,axis,nm::None,nm::None,keepdims)',
+    [[[2, 3], -2, True]], **NA)
+_op('v_take', [VW + 'take.hpp'], [('x', 'A'), ('indices', 'L'), ('axis', 'i')], 'view::take(x,indices,axis)',
+    [[[2, 3], [2, 0], 1]], kinds={'axis': ['ct', 'rt']}, **NA)
+_op('e_matmul', [AR + 'matmul.hpp'], [('x', 'A'), ('y', 'A')], 'na::matmul(x,y)',
+    [[[2, 3], [3, 2]]], **NA)
+_op('e_sum_k', [AR + 'sum.hpp'], [('x', 'A'), ('axis', 'I'), ('keepdims', 'b')], 'na::sum(x,axis,nm::None,nm::None,keepdims)',
+    [[[2, 3], [1], True], [[2, 3], None, False]], kinds={'keepdims': ['ct']}, **NA)
+OPS['v_repeat'].rep_bad = [[[2, 3], 2, 2]]
+OPS['v_expand_dims'].rep_bad = [[[2, 3], [3]]]
+OPS['v_concatenate'].rep_bad = [[[2, 3], [2, 2], 0]]
+OPS['v_matmul'].rep_bad = [[[2, 3], [2, 2]]]
+OPS['e_matmul'].rep_bad = [[[2, 3], [2, 2]]]
+
 
 def sig(op, kinds, mode='rt'):
     """kind signature: what is pinned as supported / unsupported"""
     o = OPS[op]
     ks = []
     for (an, _), k in zip(o.args, kinds):
-        ks.append('%s:%s' % (an, k))
+        ks.append('%s:%s' % (an, 'cl' if k == 'clt' else k))     # tight clipped: same types up to the bounds
     return ','.join(ks) + ('|cx' if mode == 'cx' else '')
 
 
@@ -425,8 +501,51 @@ def write_tu(name, cases, build, stubs=(), subdir=None):
 # ------------------------------------------------------------------------------------------------
 # kind assignments
 # ------------------------------------------------------------------------------------------------
+# array kinds standing for the classes of shape knowledge: constant (nested array, constant-shape ndarray), fixed rank,
+# bounded rank, dynamic, clipped
+ARRAY_CLASS_REPS = ['a', 'cs_hb', 'fs_db', 'hs_hb', 'ds_db', 'ls_fb']
+
+
+def view_pairs(op, per):
+    """first array operand over the shape classes x EVERY kind of the second argument (list kinds constant / clipped /
+    array / raw / static_vector / vector / tuple, or the kinds of the second array operand), other arguments cycling"""
+    if len(per) < 2:
+        return []
+    out = []
+    t = 0
+    for ka in ARRAY_CLASS_REPS:
+        if ka not in per[0]:
+            continue
+        for kb in per[1]:
+            k = [p[(t + 2 * i) % len(p)] for i, p in enumerate(per)]
+            k[0] = ka; k[1] = kb
+            out.append(tuple(k)); t += 1
+    return out
+
+
+def diagonals(per, rotations=1):
+    """every kind of the widest argument once, the other arguments cycling; rotation r shifts argument i by r*i"""
+    width = max(len(p) for p in per)
+    out = []
+    for r in range(rotations):
+        for j in range(width):
+            k = tuple(p[(j + r * i) % len(p)] for i, p in enumerate(per))
+            if k not in out:
+                out.append(k)
+    return out
+
+
 def all_assignments(op, vals, build):
-    return [tuple(x) for x in itertools.product(*kinds_per_arg(op, vals, build))]
+    """the kind universe of a request: the full product, or for `sparse` operations (views of round 4, where every case
+    costs ~0.3 s of compile time) two diagonals + the shape-class x second-argument pairs"""
+    per = kinds_per_arg(op, vals, build)
+    if OPS[op].sparse:
+        out = diagonals(per, 2)
+        for k in view_pairs(op, per):
+            if k not in out:
+                out.append(k)
+        return out
+    return [tuple(x) for x in itertools.product(*per)]
 
 
 def kinds_per_arg(op, vals, build):
@@ -434,8 +553,11 @@ def kinds_per_arg(op, vals, build):
     per = []
     seen_array = False
     for (an, vt), v in zip(o.args, vals):
-        per.append(kinds_for(vt, build, v, level=o.level, second=(vt == 'A' and seen_array)))
-        seen_array |= vt == 'A'
+        ks = kinds_for(vt, build, v, level=o.level, second=(vt in ('A', 'C') and seen_array))
+        if an in o.kinds and v is not None:
+            ks = [k for k in o.kinds[an] if k in ks or vt in ('A', 'C')]
+        per.append(ks)
+        seen_array |= vt in ('A', 'C')
     return per
 
 
@@ -448,7 +570,7 @@ def cx_ok(op, vals, kinds):
             return False
         if vt == 'S' and k == 'rt' and False:
             return False
-        if vt == 'A':
+        if vt in ('A', 'C'):
             return False
     return True
 
@@ -551,7 +673,12 @@ def pin_reps(op, reps, build, repo, tag):
     sup, unsup = set(), {}
     for ri, vals in enumerate(reps):
         cs = []
+        seen = set()
         for k in all_assignments(op, vals, build):
+            k = tuple('cl' if x == 'clt' else x for x in k)      # tight clipped is pinned under the signature of cl
+            if k in seen:
+                continue
+            seen.add(k)
             cs.append(KCase(op, vals, k, 'rt', salt=1))
             if cx_ok(op, vals, k):
                 cs.append(KCase(op, vals, k, 'cx', salt=1))
@@ -574,21 +701,27 @@ def pin_reps(op, reps, build, repo, tag):
     return sup, unsup
 
 
-def pin_build(build, ops=None, repo=None):
-    res = {}
-    for op in (ops or list(OPS)):
-        o = OPS[op]
+def pin_op(build, op, repo=None, refusal_only=False):
+    """probe one operation in one build; returns (build, op, entry)"""
+    old = load_pins().get(build, {})
+    o = OPS[op]
+    os.makedirs(os.path.join(GEN_DIR, 'pin'), exist_ok=True)
+    if refusal_only and op in old:
+        # an operation that gained refused representatives: its accepted combinations stay pinned as they are
+        e = dict(old[op])
+        sup, unsup = set(old[op]['supported']), old[op]['unsupported']
+    else:
         sup, unsup = pin_reps(op, o.rep, build, repo, 'ok')
-        res[op] = {'supported': sorted(sup), 'unsupported': {k: unsup[k] for k in sorted(unsup)}}
-        if o.rep_bad:
-            bsup, bunsup = pin_reps(op, o.rep_bad, build, repo, 'bad')
-            res[op]['supported_refusal'] = sorted(bsup)
-            res[op]['unsupported_refusal'] = {k: bunsup[k] for k in sorted(bunsup)}
-        sys.stderr.write('%s %s: supported %d unsupported %d refusal-supported %d\n' % (
-            build, op, len(sup), len(unsup), len(res[op].get('supported_refusal', []))))
-        with open(os.path.join(GEN_DIR, 'pin', 'partial_%s.json' % build), 'w') as f:
-            json.dump(res, f)
-    return res
+        e = {'supported': sorted(sup), 'unsupported': {k: unsup[k] for k in sorted(unsup)}}
+    if o.rep_bad:
+        bsup, bunsup = pin_reps(op, o.rep_bad, build, repo, 'bad')
+        e['supported_refusal'] = sorted(bsup)
+        e['unsupported_refusal'] = {k: bunsup[k] for k in sorted(bunsup)}
+    sys.stderr.write('%s %s: supported %d unsupported %d refusal-supported %d\n' % (
+        build, op, len(sup), len(unsup), len(e.get('supported_refusal', []))))
+    with open(os.path.join(GEN_DIR, 'pin', 'partial_%s_%s.json' % (build, op)), 'w') as f:
+        json.dump(e, f)
+    return build, op, e
 
 
 def main():
@@ -598,6 +731,7 @@ def main():
     ap.add_argument('--pin', action='store_true', help='probe every (build, op, kind signature) and rewrite the pin file')
     ap.add_argument('--ops', default='', help='comma separated subset of ops (others keep their pins)')
     ap.add_argument('--jobs', type=int, default=4)
+    ap.add_argument('--refusal-only', action='store_true', help='with --ops: only (re)probe the refused representatives')
     ap.add_argument('--merge-partial', action='store_true', help='merge the partial results of an interrupted --pin run')
     a = ap.parse_args()
     if a.pin:
@@ -606,16 +740,18 @@ def main():
         os.makedirs(os.path.join(GEN_DIR, 'pin'), exist_ok=True)
         if a.merge_partial:
             for b in BUILDS:
-                pp = os.path.join(GEN_DIR, 'pin', 'partial_%s.json' % b)
-                if os.path.exists(pp):
-                    pins.setdefault(b, {}).update(json.load(open(pp)))
+                for op in OPS:
+                    pp = os.path.join(GEN_DIR, 'pin', 'partial_%s_%s.json' % (b, op))
+                    if os.path.exists(pp):
+                        pins.setdefault(b, {})[op] = json.load(open(pp))
             with open(PIN_FILE, 'w') as f:
                 json.dump(pins, f, indent=0, sort_keys=True)
             return
         with ProcessPoolExecutor(max_workers=a.jobs) as ex:
-            futs = {b: ex.submit(pin_build, b, ops) for b in BUILDS}
-            for b, f in futs.items():
-                pins.setdefault(b, {}).update(f.result())
+            futs = [ex.submit(pin_op, b, op, None, a.refusal_only) for op in (ops or list(OPS)) for b in BUILDS]
+            for f in futs:
+                b, op, e = f.result()
+                pins.setdefault(b, {})[op] = e
         with open(PIN_FILE, 'w') as f:
             json.dump(pins, f, indent=0, sort_keys=True)
         for b in pins:
